@@ -129,8 +129,27 @@ class LineCov(object):
             tot_e += got
             tot_x += ex
         return {"scope": "lines inside function bodies of productmd/*.py executed in-process by the real side of THIS run "
-                         "(sys.monitoring; helper processes of C08/C19 not counted)",
+                         "(sys.monitoring; the C08 hash-seed worker processes included, the C19 timing worker not)",
                 "executed": tot_e, "function_lines": tot_x, "files": files, "functions_never_entered": unentered}
+
+
+def worker_linecov():
+    """called by helper processes (C08 hash-seed workers): record their lines too and hand them to the parent at exit"""
+    d = os.environ.get("VERIF_LINECOV_DIR")
+    if not d or not os.path.isdir(d):
+        return
+    lc = LineCov()
+    lc.start()
+    import atexit
+
+    def dump():
+        try:
+            lc.stop()
+            with open(os.path.join(d, "%d.json" % os.getpid()), "w") as f:
+                json.dump(sorted(lc.hits), f)
+        except Exception:
+            pass
+    atexit.register(dump)
 
 
 def _ranges(ls):
@@ -486,6 +505,9 @@ def _check(prop, tier, seed, t0):
     pid = prop.id
     linecov = LineCov()
     linecov.start()
+    import tempfile
+    lcdir = tempfile.mkdtemp(prefix="verif-linecov-")
+    os.environ["VERIF_LINECOV_DIR"] = lcdir
     use_repo()
     known = load_known()
     broken = []           # list of dicts describing broken obligations / ties (not yet violations)
@@ -651,6 +673,14 @@ def _check(prop, tier, seed, t0):
         "wall_s": round(time.time() - t0, 2), "violations": violations,
     }
     linecov.stop()
+    os.environ.pop("VERIF_LINECOV_DIR", None)
+    for wf in glob.glob(os.path.join(lcdir, "*.json")):
+        try:
+            linecov.hits.update((a, b) for (a, b) in json.load(open(wf)))
+        except Exception:
+            pass
+    import shutil
+    shutil.rmtree(lcdir, ignore_errors=True)
     lc = linecov.report()
     if lc is not None:
         ev["coverage"]["real_code_lines"] = lc
